@@ -4,7 +4,7 @@
 From Coq Require Import ZArith List Bool.
 From LV Require Import GainLoss.RoseTree GainLoss.Replay GainLoss.GetGls GainLoss.GetGlsProofs
   GainLoss.GetGlsTopProofs GainLoss.Parsimony GainLoss.ParsimonyProofs GainLoss.GetGlsOptProofs
-  GainLoss.GetGlsOptTopProofs GainLoss.GainLossExec.
+  GainLoss.GetGlsOptTopProofs GainLoss.PhyBoGlue GainLoss.PhyBoRows GainLoss.PhyBoWeightedProofs GainLoss.GainLossExec.
 Import ListNotations.
 Local Open Scope Z_scope.
 
@@ -78,6 +78,40 @@ Theorem C08_single_gain :
 Proof. exact single_gain. Qed.
 Print Assumptions C08_single_gain.
 
+(* ---- through the wordlist-driven entry point (deepening round) ----
+   PhyBo.get_GLS(mode='weighted') per cognate set = singleton shortcut, else get_gls.  The shortcut
+   agrees with get_gls (a single presence is its own common ancestor), so the object stores get_gls's
+   scenario for the pattern; pattern lists every taxon once and only tips. *)
+Theorem C08_phybo_weighted_is_get_gls :
+  forall pat t g l gpl push md,
+    NoDup (names t) -> NoDup (keys pat) -> (forall n s, In (n, s) pat -> In n (tips t)) -> (md = 0 \/ md = -1) ->
+    phybo_per_cog pat t (GWeighted g l) gpl push md = get_gls pat t gpl g l push md.
+Proof. exact phybo_weighted_is_get_gls. Qed.
+Print Assumptions C08_phybo_weighted_is_get_gls.
+
+(* from the ROWS of the wordlist ([paps_of_rows] = the model of get_paps, [phybo_of_rows] = rows ->
+   pattern -> shortcut / get_gls): with gpl at least the number of languages the stored scenario has
+   the minimum weight over all assignments for the pattern attested by the rows; with any gpl it is
+   never below it *)
+Theorem C08_phybo_rows_weight_is_minimum :
+  forall rows taxa cog con t g l gpl push md ev,
+    NoDup (names t) -> NoDup taxa -> (forall x, In x taxa <-> In x (tips t)) -> (md = 0 \/ md = -1) ->
+    0 <= g -> 0 <= l ->
+    phybo_of_rows rows taxa cog con t (GWeighted g l) gpl push md = Ok ev ->
+    Z.of_nat (length (tips t)) <= gpl ->
+    is_min_cost g l md (combine taxa (paps_of_rows rows taxa cog con)) t (weight_ev g l ev).
+Proof. exact phybo_rows_weight_is_min. Qed.
+Print Assumptions C08_phybo_rows_weight_is_minimum.
+
+Theorem C08_phybo_rows_weight_ge_minimum :
+  forall rows taxa cog con t g l gpl push md ev,
+    NoDup (names t) -> NoDup taxa -> (forall x, In x taxa <-> In x (tips t)) -> (md = 0 \/ md = -1) ->
+    0 <= g -> 0 <= l ->
+    phybo_of_rows rows taxa cog con t (GWeighted g l) gpl push md = Ok ev ->
+    exists m, is_min_cost g l md (combine taxa (paps_of_rows rows taxa cog con)) t m /\ m <= weight_ev g l ev.
+Proof. exact phybo_rows_weight_ge_min. Qed.
+Print Assumptions C08_phybo_rows_weight_ge_minimum.
+
 (* the two invariants behind the optimality proof (DESIGN Appendix C): per node and state the
    kept scenarios are NOT of optimal cost, but (J1) each costs at least what its parent can see,
    and (J2) each of the parent's two views is attained by some kept scenario *)
@@ -128,3 +162,19 @@ Proof.
   exact (C08_single_gain [(1,0);(2,0);(3,0);(4,0);(5,0);(6,-1);(7,1);(8,1)] ex_tree 1 1 1 true 0 (or_introl eq_refl) eq_refl
            ltac:(intros n Hn; cbn in Hn; destruct Hn as [E|[E|[]]]; subst n; reflexivity)).
 Qed.
+
+(* through the rows: languages 1,2,3,7,8 have a reflex of set 5 for concept 0 (language 2 twice),
+   4 and 5 a word of another set, language 6 no word *)
+Definition ex_rows : list row :=
+  [(1, 0, 5); (2, 0, 5); (2, 0, 5); (3, 0, 5); (4, 0, 6); (5, 0, 6); (7, 0, 5); (8, 0, 5)].
+Example ex_rows_coded : combine [1;2;3;4;5;6;7;8] (paps_of_rows ex_rows [1;2;3;4;5;6;7;8] 5 0) = ex_pat.
+Proof. vm_compute. reflexivity. Qed.
+Example ex_rows_stored :
+  phybo_of_rows ex_rows [1;2;3;4;5;6;7;8] 5 0 ex_tree (GWeighted 1 1) 8 true 0 = Ok [(21, 1); (20, 0); (0, 1)].
+Proof. vm_compute. reflexivity. Qed.
+(* and the singleton shortcut gives get_gls's answer *)
+Example ex_rows_singleton :
+  phybo_of_rows [(3, 0, 9); (4, 0, 6)] [1;2;3;4;5;6;7;8] 9 0 ex_tree (GWeighted 2 1) 1 true (-1) = Ok [(3, 1)]
+  /\ get_gls (combine [1;2;3;4;5;6;7;8] (paps_of_rows [(3, 0, 9); (4, 0, 6)] [1;2;3;4;5;6;7;8] 9 0)) ex_tree 1 2 1 true (-1)
+     = Ok [(3, 1)].
+Proof. vm_compute. split; reflexivity. Qed.
